@@ -54,7 +54,7 @@ CHECKS = {
     "C04": dict(
         text="Lean theorems: regenerate returns a coherent trace; weight formula (change of joint minus change of selected prior) when no Cond "
              "switches; empty selection + same args => weight 0 and the identical trace (canonical traces; all ops produce canonical traces); all "
-             "selected => weight 0; proved counterexamples for the dropped hypotheses; pre-repair Scan.regenerate undefined; VALUES: every unselected address is unchanged, every selected leaf holds the sampler's draw for the parameters of the NEW trace, the discard holds exactly the old values of the selected addresses. Tie: regenerate with "
+             "selected => weight 0; proved counterexamples for the dropped hypotheses; pre-repair Scan.regenerate undefined; in the linear-domain probabilistic semantics the weight is (joint-density ratio) / (selected-density ratio) (Cond-free); VALUES: every unselected address is unchanged, every selected leaf holds the sampler's draw for the parameters of the NEW trace, the discard holds exactly the old values of the selected addresses. Tie: regenerate with "
              "generated selection expressions on the real code (incl. definedness) vs model and reference.",
         note=TB + "C04: 'fresh draw' is stated for the deterministic probe sampler (P.draw); distributional freshness is the sampler contract; open finding kwarg-name-collision.",
         technique="Lean 4 proof + differential correspondence over selections",
@@ -134,7 +134,7 @@ CHECKS = {
         design="§3 C14"),
     "C09": dict(
         text="Partial. Lean theorems (any ordered field / dimension / force field): MH accept rule = detailed balance; leapfrog^n followed by a momentum "
-             "flip is an involution; rejection returns the input; the log acceptance ratios AS THE CODE COMPUTES THEM are in the model (malaLogAlpha, hmcLogAlpha): mala's is the log MH ratio of the Langevin kernel (normalisers cancel in every dimension), antisymmetric, hence pi*q*min(1,e^alpha) satisfies detailed balance; hmc's is the energy difference, negated on the reversed trajectory, zero for an energy-conserving run, hence detailed balance for exp(-H). Tie: one kernel step of mh / mala / hmc with scripted internal randomness "
+             "flip is an involution; rejection returns the input; the log acceptance ratios AS THE CODE COMPUTES THEM are in the model (malaLogAlpha, hmcLogAlpha): mala's is the log MH ratio of the Langevin kernel (normalisers cancel in every dimension), antisymmetric, hence pi*q*min(1,e^alpha) satisfies detailed balance; hmc's is the energy difference, negated on the reversed trajectory, zero for an energy-conserving run, hence detailed balance for exp(-H). MH ON GENERATIVE-FUNCTION PROGRAMS (finite-distribution semantics, Cond-free programs): the regenerate proposal has probability = product of the selected sites' masses under the new values (0 if an unselected address differs), its weight is the MH ratio in cross-multiplied form w * pi(x) * q(x->x') = pi(x') * q(x'->x), and pi(x) q(x->x') min(1,w) = pi(x') q(x'->x) min(1,w') - detailed balance of mh for the program's joint density; the model collapses to GF.regenerate for point masses (every program). Tie: one kernel step of mh / mala / hmc with scripted internal randomness "
              "(noise, momentum, accept uniform) on scalar, array-valued, Vmap-, Scan- and Cond-addressed targets incl. the mixture-indicator move: "
              "proposal, log acceptance ratio, accept decision, resulting trace, untouched unselected choices vs an independent JAX/scipy "
              "implementation of the MH rule for the stated proposals AND vs the Lean model run by the driver on the same state/noise (targets expressed as exact quadratic forms), with accept/reject bracketing of the implementation's decision around the model's log alpha; mh's proposal = seeded regenerate under the same key.",
